@@ -64,8 +64,10 @@ def run_sweep(targets, n, seed, repo, timeout=1800):
 def replay_bounded(payload, repo):
     env = dict(os.environ, PYTHONPATH=repo + os.pathsep + VERIF, VERIF_REPO=repo,
                PYTHONDONTWRITEBYTECODE='1')
-    r = subprocess.run([PY_PENMAN, '-m', 'vlib.bounded.drv', '--replay',
-                        json.dumps({'check': payload['check'], 'args': payload['args']})],
+    req = {'check': payload['check'], 'args': payload['args']}
+    if payload.get('with_history') and payload.get('history'):
+        req['history'] = payload['history']
+    r = subprocess.run([PY_PENMAN, '-m', 'vlib.bounded.drv', '--replay', json.dumps(req)],
                        cwd=VERIF, env=env, capture_output=True, text=True, timeout=600)
     try:
         return json.loads(r.stdout.strip().splitlines()[-1])
@@ -116,6 +118,13 @@ def do_replay(prop, path, repo):
     if payload.get('kind') == 'bounded':
         r = replay_bounded(payload, repo)
         print(json.dumps(r, indent=1))
+        if r['detail'] in (None, 'SKIP') and (payload.get('history') or {}).get('ordinal'):
+            r2 = replay_bounded(dict(payload, with_history=True), repo)
+            print(json.dumps(r2, indent=1))
+            if r2['detail'] not in (None, 'SKIP') and r2.get('same_input'):
+                print('REPLAY property=%s: reproduced only after the %d evaluations the run made before it '
+                      '(history-dependent): %s' % (prop, payload['history']['ordinal'] - 1, r2['detail']))
+                return 1
         if r['detail'] in (None, 'SKIP'):
             print('REPLAY property=%s: the input no longer fails' % prop)
             return 0
@@ -183,7 +192,10 @@ def do_check(prop, tier, seed, a, t0):
                 continue
             violations.append({
                 'name': f['check'], 'kind': 'bounded', 'check': f['check'], 'args': f['args'],
-                'detail': f['detail'], 'suffix': ''})
+                'detail': f['detail'], 'suffix': '',
+                # where in the deterministic run it failed: a failure that needs the evaluations before it
+                # (state left behind in a long-lived object or module) is replayed with that prefix
+                'history': {'prop': prop, 'tier': tier, 'seed': seed, 'ordinal': f.get('ordinal')}})
         for chk, fid, n in bounded['fail_counts']:
             if fid and fid in open_findings:
                 known_seen[fid] = known_seen.get(fid, 0) + n
